@@ -108,6 +108,9 @@ type FieldsCopied struct {
 	File string
 	Line int
 	Skip map[string]string // field -> reason
+	// fields_decoded: the function is a decoder that fills Local (a local struct) from the document and then
+	// stores its fields into the receiver
+	Local string
 }
 
 type Contracts struct {
@@ -132,7 +135,7 @@ var tagRe = regexp.MustCompile(`\s*\[((?:C\d+)(?:\s*,\s*C\d+)*)\]\s*$`)
 
 var clauseKeywords = map[string]bool{
 	"func": true, "requires": true, "ensures": true, "modifies": true, "pure": true, "trusted": true,
-	"loop": true, "site": true, "ghost": true, "nonnil": true, "guarded_by": true, "entry": true, "state_fields": true, "callers": true, "map_ranges": true, "spawned_writes": true, "nilable": true, "fields_copied": true,
+	"loop": true, "site": true, "ghost": true, "nonnil": true, "guarded_by": true, "entry": true, "state_fields": true, "callers": true, "map_ranges": true, "spawned_writes": true, "nilable": true, "fields_copied": true, "fields_decoded": true,
 	"sweep": true, "package": true, "axiom": true, "allow": true, "witness": true, "nosafety": true, "spawns": true, "nopanic": true,
 	"deferrule": true, "skipfield": true, "preserves": true, "typeinv": true, "updates": true, "deterministic": true, "init": true, "nosite": true, "blocks": true, "define": true, "fnspec": true, "result": true, "param": true, "implements": true,
 }
@@ -717,6 +720,14 @@ func (cs *Contracts) parseFile(path, pkg string, external bool) error {
 			cs.Axioms = append(cs.Axioms, c)
 		case "fields_copied":
 			fc := &FieldsCopied{Func: pkg + "." + rest, Tags: tags, Pkg: pkg, File: path, Line: rc.line, Skip: map[string]string{}}
+			cs.FCopied = append(cs.FCopied, fc)
+		case "fields_decoded":
+			// fields_decoded (*T).UnmarshalYAML <local>
+			fnm, loc := splitWord(rest)
+			if fnm == "" || strings.TrimSpace(loc) == "" {
+				return fail("fields_decoded <func> <local struct variable>")
+			}
+			fc := &FieldsCopied{Func: pkg + "." + fnm, Tags: tags, Pkg: pkg, File: path, Line: rc.line, Skip: map[string]string{}, Local: strings.TrimSpace(loc)}
 			cs.FCopied = append(cs.FCopied, fc)
 		case "skipfield":
 			if len(cs.FCopied) == 0 {
